@@ -29,6 +29,10 @@ def obligations(tier):
            bounds="forall n", call="props.lay:ob_anchors", kwargs={"scope": "volume"}),
         Ob("C16.ad", "X", "PaddedString: text without padding (stripped), any content", ["ceos_alos2.datatypes:PaddedString._decode"], bounds=f"forall ASCII strings |s| <= {maxlen}",
            harness="harness/h_adapters.py", func="padded_string_ok", params={"maxlen": maxlen}, timeout=to),
+        Ob("C16.count", "X", "the count of file-pointer records (and every other ASCII integer of the volume directory) reads as the number written in its field - "
+           "0 in any padding (blank-, zero-padded, left-justified) is 0, not 'blank': the records in between are skipped for any N incl. 0",
+           ["ceos_alos2.datatypes:AsciiInteger._decode"], bounds=f"forall ASCII strings |s| <= {maxlen}", outside="CPython int() (uninterpreted)",
+           harness="harness/h_adapters.py", func="ascii_int_ok", params={"maxlen": maxlen}, timeout=to),
         Ob("C16.plumb", "X", "root attributes = the documented 15 names; each text attribute is its own field unchanged, for 0 and 3 file pointers; ignored fields never surface",
            F, bounds="forall 14 surfaced + 2 ignored text contents |s| <= 2 (unicode)", harness="harness/h_adapters.py", func="volume_ok", timeout=to),
         Ob("C16.fmt", "N", "creation date-time yyyymmddhhmmssxx -> ISO 8601 of the same instant", ["ceos_alos2.transformers:normalize_datetime"],
